@@ -12,6 +12,8 @@ CHECKS = {
  "C05": ("tracersim", "exploration", "reference aggregator (plain lists, two-pass formulas) compared with the snapshot after every round, plus conservation laws", "4 C05"),
  "C14": ("tracersim", "exploration", "extension-emitting responders (RFC 4884 compliant and legacy layouts, arbitrary objects, MPLS stacks); reported extensions must equal the encoded list and the probe must still be recognised", "4 C14"),
  "C15": ("tracersim", "exploration", "flow invariants and per-flow reference aggregation over ECMP topologies with small flow limits", "4 C15"),
+ "C16": ("tracersim", "exploration", "builder path: every combination the Builder API admits is built and, when accepted, run over simulated networks; it is rejected before any socket call or runs without panicking (command-line half: tuisim, see DESIGN.md)", "4 C16"),
+ "C20": ("snapsim", "exploration", "the real tracer thread and reader threads calling snapshot()/clear() under shuttle's seeded schedulers (random and PCT); the recorded history is checked for linearizability against the sequential model 'rounds applied since the last clear'", "5"),
  "C19": ("tracersim", "exploration", "per-round NAT status recomputed from the quoted checksums on the simulated wire over paths with rewriting devices", "4 C19"),
  "C06": ("tracersim", "exploration", "online send-discipline monitor over wire records and hand-overs", "4 C06"),
  "C07": ("tracersim", "exploration", "sequence arithmetic monitor over long runs from boundary initial sequences with TCP port-collision storms, plus re-delivery of previous-round responses", "4 C07"),
@@ -25,10 +27,8 @@ NOT_APPLICABLE = {
  "C13": "the codec half is a pure function of (bytes, addresses); arbitrary contents and the TCP helper are never produced by the running tracer. Its only stateful sentence (Paris probes carry the sequence in the checksum field and still verify) is part of C11's statement and is enforced there (DESIGN.md section 7)",
 }
 PENDING = {
- "C16": "check under construction (builder/CLI combinations)",
  "C17": "check under construction (tuisim)",
  "C18": "check under construction (tuisim)",
- "C20": "check under construction (snapsim)",
 }
 
 def main():
@@ -49,9 +49,9 @@ def main():
     na = [{"property_id": k, "reason": v} for k, v in sorted({**NOT_APPLICABLE, **{k: v for k, v in PENDING.items() if k not in CHECKS}}.items())]
     m = {
         "version": 1,
-        "setup_cmd": "cd /verif/sim && CARGO_NET_OFFLINE=true cargo build --offline --profile checked -p tracersim",
+        "setup_cmd": "cd /verif/sim && CARGO_NET_OFFLINE=true cargo build --offline --profile checked -p tracersim && cd /verif/sim/snapsim && CARGO_NET_OFFLINE=true cargo build --offline --profile checked",
         "hooks": {
-            "guard": "cargo feature verif-hooks (trippy-core)",
+            "guard": "cargo features verif-hooks and verif-shuttle (trippy-core)",
             "enable": "the harness crates under /verif/sim depend on /repo's crates by path with features = [\"verif-hooks\"]",
             "baseline_off_cmd": "cd /repo && cargo nextest run --workspace --no-fail-fast --test-threads 8 --offline || cargo test --workspace --no-fail-fast --offline",
             "source_commits": [h.split()[0] for h in hooks],
@@ -59,6 +59,7 @@ def main():
         },
         "engines": [
             {"name": "tracersim", "path": "/verif/sim/tracersim", "serves_properties": sorted(k for k, v in CHECKS.items() if v[0] == "tracersim"), "kind_free_text": "the real Builder/Tracer/Strategy/Channel/State over SimSocket/SimPlatform, a simulated network with an independent RFC codec, and a virtual clock (clock_gettime interposed); seeded decision tape, tape shrinking, replay files"},
+            {"name": "snapsim", "path": "/verif/sim/snapsim", "serves_properties": sorted(k for k, v in CHECKS.items() if v[0] == "snapsim"), "kind_free_text": "tracersim's world plus shuttle 0.9.3 as the thread scheduler (state lock replaced by shuttle's RwLock through feature verif-shuttle and a shadow manifest); linearizability checker; persisted schedules as replay"},
         ],
         "checks": checks,
         "not_applicable": na,
